@@ -3,9 +3,11 @@ import PoxModel.Model.Handoff
 
 For every function of the hand-off machinery: its statements that can touch state visible to another thread, in
 source order, each tagged with what it is in the model.  `harness/translate/sites.py` regenerates the same lists
-(texts only) from the working tree into `Generated/Sites.lean`; `Pox.C07.sites_agree` requires the two to be equal,
-so a statement of one of these functions that disappears, changes, moves, or a new one that touches an attribute,
-breaks the build until the model (and this table) is revisited.
+(texts only) from the working tree into `Generated/Sites.lean`.  The TEXTS are evidence (the harness reports whether
+they still agree — they change with every refactoring); the obligation is structural: `ops` below (per function the
+bag of operations on shared state, helpers inlined) must equal the regenerated `Generated.Sites.ops`
+(`Pox.C07.ops_agree`), every action anchored here must be in its function's bag (`Pox.C07.ops_cover`), and order and
+conditions are tied by the trace validation on the operations of the shared objects.
 
 Tags: `.act s` = the atomic action `s` of `Model/Handoff.lean`; `.call` = transfers control to another listed
 function or to the task/callback (no shared effect of its own); `.loc` = thread-local, immutable configuration, or an
@@ -224,5 +226,84 @@ def allSites : List Site :=
    .fs_appendleft, .bi_set, .cy_ping, .se_create, .se_acqIn, .sx_relOut, .run_len, .idle_wait, .idle_clear, .cyc_pop,
    .cyc_append, .user_body, .st_contains, .sch_contains, .sy_relIn, .sy_acqOut, .rs_put, .clt_pong, .clt_pop, .clt_call, .sel_select,
    .sel_pong, .sel_empty, .sel_get]
+
+
+/-! ## structural summary (the obligation tied to the working tree by `decide`)
+
+Per function: the BAG of operations on (potentially) shared state — method calls named like an operation of a deque / set /
+lock / event / queue / pinger / thread, `with`, `in` ("contains"), `len`, attribute stores ("write:attr"), object creation
+("new:Class"), yield / raise / assert, calls of other listed functions ("call:name") — with helpers that are not listed
+themselves inlined (harness/translate/sites.py, `ops`).  Unlike the statement texts of `table`, this summary does not change
+when a helper is extracted, a local is renamed, a log call is rewritten or branches are reordered; ORDER and CONDITIONS of the
+operations are tied dynamically (every operation executed on a shared object must be the model's next action of that thread).
+`siteOp` says which operation each model action is; `Pox.C07.ops_cover` checks that every action the table anchors in a
+function is an operation in that function's bag. -/
+def ops : List (String × List (String × Nat)) := [
+  ("recoco.BaseTask.start", [("call:fast_schedule", 1), ("call:schedule", 1), ("write:priority", 1)]),
+  ("recoco.Scheduler.callLater", [("call:callLater", 1), ("new:CallLaterTask", 1), ("start", 1), ("with", 1), ("write:_callLaterTask", 1)]),
+  ("recoco.Scheduler.synchronized", [("new:Synchronizer", 1), ("write:synchronizer", 1)]),
+  ("recoco.Scheduler.schedule", [("call:fast_schedule", 1), ("contains", 1), ("new:ScheduleTask", 1), ("start", 1)]),
+  ("recoco.Scheduler.fast_schedule", [("append", 1), ("appendleft", 1), ("assert", 1), ("call:break_idle", 1), ("contains", 1)]),
+  ("recoco.Scheduler.run", [("call:_cycle", 1), ("call:cycle", 1), ("call:idle", 1), ("len", 1), ("write:_allDone", 1), ("write:_hasQuit", 1)]),
+  ("recoco.Scheduler.cycle", [("append", 2), ("call:execute", 2), ("call:registerSelect", 1), ("len", 1), ("popleft", 1), ("raise", 1)]),
+  ("recoco.Select.execute", [("call:registerSelect", 1)]),
+  ("recoco.SelectHub.idle", [("call:_select", 1), ("clear", 1), ("wait", 1)]),
+  ("recoco.SelectHub.break_idle", [("call:_cycle", 1), ("set", 1)]),
+  ("recoco.SelectHub._threadProc", [("call:_select", 1)]),
+  ("recoco.SelectHub._select", [("append", 4), ("assert", 1), ("call:_return", 3), ("clear", 1), ("contains", 5), ("empty", 1), ("get", 1), ("len", 6), ("pongAll", 1), ("remove", 1)]),
+  ("recoco.SelectHub.registerSelect", [("call:_cycle", 1), ("put", 1)]),
+  ("recoco.SelectHub._cycle", [("ping", 1)]),
+  ("recoco.SelectHub._return", [("call:fast_schedule", 1), ("write:rv", 1)]),
+  ("recoco.ScheduleTask.run", [("call:fast_schedule", 1), ("contains", 1), ("yield", 1)]),
+  ("recoco.SyncTask.__init__", [("acquire", 2), ("call:__init__", 1), ("new:Lock", 2), ("write:inlock", 1), ("write:outlock", 1)]),
+  ("recoco.SyncTask.run", [("acquire", 1), ("release", 1), ("yield", 1)]),
+  ("recoco.Synchronizer.__enter__", [("acquire", 1), ("new:SyncTask", 1), ("start", 1), ("write:enter", 1), ("write:syncer", 1)]),
+  ("recoco.Synchronizer.__exit__", [("release", 1), ("write:enter", 1)]),
+  ("recoco.CallLaterTask.__init__", [("call:__init__", 1), ("write:_calls", 1), ("write:_pinger", 1)]),
+  ("recoco.CallLaterTask.callLater", [("append", 1), ("assert", 1), ("ping", 1)]),
+  ("recoco.CallLaterTask.run", [("new:Select", 1), ("pongAll", 1), ("popleft", 1), ("yield", 1)]),
+  ("recoco._LockAcquire.execute", [("call:_do_acquire", 1)]),
+  ("recoco._LockRelease.execute", [("call:_do_release", 1)]),
+  ("recoco.Lock.__init__", [("write:_locked", 1), ("write:_waiting", 1)]),
+  ("recoco.Lock._do_release", [("call:fast_schedule", 1), ("pop", 1), ("raise", 1), ("write:_locked", 2), ("write:rv", 1)]),
+  ("recoco.Lock._do_acquire", [("add", 1), ("write:_locked", 1), ("write:rv", 2)]),
+  ("core.POXCore.callLater", [("call:call_later", 1)]),
+  ("core.POXCore.call_later", [("call:callLater", 1)]),
+  ("core.POXCore.raiseLater", [("call:callLater", 1)]),
+  ("util.make_pinger.PipePinger.ping", [("write", 1)]),
+  ("util.make_pinger.PipePinger.pongAll", [("pong_all", 1)]),
+  ("util.make_pinger.PipePinger.pong_all", [("read", 1)])]
+
+/-- the operation (in the vocabulary of `ops`) a model action performs; `none` = a plain read / a dynamic call -/
+def siteOp : Site → Option String
+  | .cl_lock | .cl_unlock => some "with"
+  | .cl_create => some "new:CallLaterTask"
+  | .clt_append | .fs_append | .cyc_append => some "append"
+  | .clt_ping | .cy_ping => some "ping"
+  | .sch_spawn => some "new:ScheduleTask"
+  | .fs_assert | .st_contains | .sch_contains => some "contains"
+  | .fs_appendleft => some "appendleft"
+  | .bi_set => some "set"
+  | .se_create => some "new:SyncTask"
+  | .se_acqIn | .sy_acqOut => some "acquire"
+  | .sx_relOut | .sy_relIn => some "release"
+  | .run_len => some "len"
+  | .idle_wait => some "wait"
+  | .idle_clear => some "clear"
+  | .cyc_pop | .clt_pop => some "popleft"
+  | .rs_put => some "put"
+  | .clt_pong | .sel_pong => some "pongAll"
+  | .sel_empty => some "empty"
+  | .sel_get => some "get"
+  | .sel_select | .cl_isNone | .clt_call | .f_begin | .user_body => none
+
+/-- every action anchored in a function is an operation of that function's bag -/
+def opsCover : Bool :=
+  table.all fun (f, rows) => rows.all fun (_, t) =>
+    match t with
+    | .act s => match siteOp s with
+      | some o => (ops.find? (·.1 = f)).any fun (_, bag) => bag.any (·.1 = o)
+      | none => true
+    | _ => true
 
 end Pox.HandoffSites
